@@ -380,51 +380,132 @@ func checkC01(p *Program, r *Report) {
 				}
 			}
 		}
-		for _, ap := range acceptPoints(da) {
-			if ap.Delegate == nil {
-				continue
+		isEq := func(cd Cond) (*ssa.BinOp, bool) {
+			bo, truth, ok := condBinOp(cd)
+			if !ok {
+				return nil, false
 			}
-			ctor := ap.Delegate.Call.StaticCallee()
-			if ctor == nil {
-				continue
+			if bo.Op == token.EQL && truth || bo.Op == token.NEQ && !truth {
+				return bo, true
 			}
-			res := namedOf(ctor.Signature.Results().At(0).Type())
-			arm := decArm{length: -1, addrType: -1, result: res, ctor: ctor, pos: ap.Ret.Pos()}
-			for _, cd := range MustConds(da, ap) {
-				bo, truth, ok := condBinOp(cd)
-				if !ok || !(bo.Op == token.EQL && truth) {
-					continue
+			return nil, false
+		}
+		// classify: what a compared value stands for — the payload length / the address type of classifier call #ci,
+		// or the payload length of the Base58Check decoder; subst maps a helper's parameters to the caller's arguments
+		type meaning struct {
+			kind string // "len" | "type" | "legacylen"
+			ci   int
+		}
+		var meaningOf func(v ssa.Value, subst map[ssa.Value]ssa.Value) (meaning, bool)
+		meaningOf = func(v ssa.Value, subst map[ssa.Value]ssa.Value) (meaning, bool) {
+			if w, ok := subst[v]; ok {
+				return meaningOf(w, nil)
+			}
+			if lc, ok := v.(*ssa.Call); ok && isBuiltin(&lc.Call, "len") {
+				arg := lc.Call.Args[0]
+				if w, ok := subst[arg]; ok {
+					arg = w
 				}
-				k, isK := constInt(bo.Y)
-				if !isK {
-					continue
-				}
-				if lc, ok := bo.X.(*ssa.Call); ok && isBuiltin(&lc.Call, "len") {
-					if ex, ok := lc.Call.Args[0].(*ssa.Extract); ok && ex.Index == 0 {
-						for ci, c := range calls {
-							if ex.Tuple == ssa.Value(c) {
-								arm.length = k
-								arm.family = []string{"cash", "slp"}[min(ci, 1)]
-							}
+				if ex, ok := arg.(*ssa.Extract); ok && ex.Index == 0 {
+					for ci, c := range calls {
+						if ex.Tuple == ssa.Value(c) {
+							return meaning{"len", ci}, true
 						}
-						if c, ok := ex.Tuple.(*ssa.Call); ok && c.Call.StaticCallee() != classifier {
-							arm.length, arm.family = k, "legacy"
+					}
+					if c, ok := ex.Tuple.(*ssa.Call); ok && c.Call.StaticCallee() != classifier {
+						return meaning{"legacylen", 0}, true
+					}
+				}
+				return meaning{}, false
+			}
+			if ex, ok := v.(*ssa.Extract); ok && ex.Index == 2 {
+				for ci, c := range calls {
+					if ex.Tuple == ssa.Value(c) {
+						return meaning{"type", ci}, true
+					}
+				}
+			}
+			return meaning{}, false
+		}
+		var collect func(fn *ssa.Function, subst map[ssa.Value]ssa.Value, outer decArm, depth int)
+		collect = func(fn *ssa.Function, subst map[ssa.Value]ssa.Value, outer decArm, depth int) {
+			for _, ap := range acceptPoints(fn) {
+				if ap.Delegate == nil {
+					continue
+				}
+				ctor := ap.Delegate.Call.StaticCallee()
+				if ctor == nil {
+					continue
+				}
+				arm := outer
+				arm.ctor, arm.pos = ctor, ap.Ret.Pos()
+				arm.result = namedOf(ctor.Signature.Results().At(0).Type())
+				conds := MustConds(fn, ap)
+				// a helper's boolean parameter that the caller passed as a constant prunes the arms it excludes
+				feasible := true
+				for _, cd := range conds {
+					v, truth := cd.V, cd.Truth
+					if u, ok := v.(*ssa.UnOp); ok && u.Op == token.NOT {
+						v, truth = u.X, !truth
+					}
+					if w, ok := subst[v]; ok {
+						if bv, isB := constBool(w); isB && bv != truth {
+							feasible = false
 						}
 					}
 				}
-				if ex, ok := bo.X.(*ssa.Extract); ok && ex.Index == 2 {
-					for _, c := range calls {
-						if ex.Tuple == ssa.Value(c) {
+				if !feasible {
+					continue
+				}
+				for _, cd := range conds {
+					bo, ok := isEq(cd)
+					if !ok {
+						continue
+					}
+					for _, pr := range [][2]ssa.Value{{bo.X, bo.Y}, {bo.Y, bo.X}} {
+						k, isK := constInt(pr[1])
+						if !isK {
+							continue
+						}
+						m, ok := meaningOf(pr[0], subst)
+						if !ok {
+							continue
+						}
+						switch m.kind {
+						case "len":
+							arm.length = k
+							arm.family = []string{"cash", "slp"}[min(m.ci, 1)]
+						case "legacylen":
+							arm.length, arm.family = k, "legacy"
+						case "type":
 							arm.addrType = k
 						}
 					}
 				}
+				// an in-repo helper that builds the address from (payload, type): look inside, with its parameters
+				// standing for the caller's arguments
+				if p.InRepo(ctor) && len(ctor.Blocks) > 0 && depth < 2 {
+					if _, isIface := ctor.Signature.Results().At(0).Type().Underlying().(*types.Interface); isIface {
+						sub := map[ssa.Value]ssa.Value{}
+						for i, a := range ap.Delegate.Call.Args {
+							if i < len(ctor.Params) {
+								if w, ok := subst[a]; ok {
+									a = w
+								}
+								sub[ctor.Params[i]] = a
+							}
+						}
+						collect(ctor, sub, arm, depth+1)
+						continue
+					}
+				}
+				if arm.family == "" {
+					arm.family = "pubkey"
+				}
+				arms = append(arms, arm)
 			}
-			if arm.family == "" {
-				arm.family = "pubkey"
-			}
-			arms = append(arms, arm)
 		}
+		collect(da, nil, decArm{length: -1, addrType: -1}, 0)
 	}
 
 	// ---- obligations per type
@@ -477,7 +558,7 @@ func checkC01(p *Program, r *Report) {
 	c01pubkey(p, r, da)
 	c01stages(p, r, da)
 	rejectionVocabulary(p, r, "C01.accepts", da, c01AcceptsAllow, "the stage results: CashAddr payload length and type, hex / Base58Check decoding errors, payload length and the registry's kind of the version byte")
-	r.Floor("C01.accepts", 10)
+	r.Floor("C01.accepts", 5)
 	r.Floor("C01.kinds", 20)
 
 	c01membership(p, r, addrTypes)
@@ -884,7 +965,7 @@ func c01stages(p *Program, r *Report, da *ssa.Function) {
 				"further conditions on the way to the hex decoder read {"+strings.Join(foreign, ", ")+"}: some rendering of a public key may be passed on to Base58Check instead")
 		}
 	}
-	r.Floor("C01.stages", 8)
+	r.Floor("C01.stages", 3)
 }
 
 // c01AcceptsAllow: what DecodeAddress may base a refusal on.
